@@ -965,6 +965,11 @@ class BatchMessage(_MessageType):
                 write_value(f, param)
 
         write_consistency_level(f, self.consistency_level)
+        if self.keyspace and protocol_version < 3:
+            # a v2 BATCH ends after the consistency level: there are no flags to announce a keyspace with
+            raise UnsupportedOperation(
+                "Keyspaces may only be set on queries with protocol version "
+                "5 or higher. Consider setting Cluster.protocol_version to 5.")
         if protocol_version >= 3:
             flags = 0
             if self.serial_consistency_level:
